@@ -405,4 +405,91 @@ theorem colon_spec (buf : Bytes) (pos : Nat) (h : pos ≤ buf.length) :
 theorem specific_spec (buf : Bytes) (pos : Nat) (ch : UInt8) (h : pos ≤ buf.length) :
     Agrees (.specific ch) buf pos (lexSpecific buf pos ch) := oneChar_agrees _ _ _ _ _ h rfl (by simp)
 
+/-! ## plain tokens -/
+
+/-- rewrite the model's primitives over `buf.drop pos` -/
+syntax "lex_rel" ("[" Lean.Parser.Tactic.simpLemma,* "]")? : tactic
+macro_rules
+  | `(tactic| lex_rel) => `(tactic| simp only [peekP_eq, skipMany_eq, skipOne_eq, skipChr_eq, skipWs, skipNumbers,
+      skipAlpha, drop_add, mkTok])
+  | `(tactic| lex_rel [$ts,*]) => `(tactic| simp only [peekP_eq, skipMany_eq, skipOne_eq, skipChr_eq, skipWs, skipNumbers,
+      skipAlpha, drop_add, mkTok, $ts,*])
+
+theorem agrees_plain {k : Kind} {re : Re} {ty : TokType} {buf : Bytes} {pos : Nat}
+    (hk : specToken k (buf.drop pos) = plainSpec re ty (buf.drop pos)) (hb : k ≠ .block)
+    (n : Nat) (hmax : ∀ m, PM re (buf.drop pos) m → m ≤ n) (hmem : 0 < n → PM re (buf.drop pos) n)
+    (r : Nat × Token × Int) (hr1 : r.1 = pos + n) (hr2 : r.2.2 = n)
+    (hr3 : r.2.1.type = if n > 0 then ty else .unknown) (hr4 : r.2.1.ptr = pos) (hr5 : r.2.1.len = n)
+    (h : pos ≤ buf.length) :
+    Agrees k buf pos r := by
+  unfold Agrees
+  rw [hk]
+  have hr : r.2.1 = ⟨if n > 0 then ty else .unknown, pos, n⟩ := by
+    rw [← hr3, ← hr4, ← hr5]
+  by_cases hn : 0 < n
+  · rw [plainSpec_some hn (hmem hn) hmax]
+    have := PM_le (hmem hn)
+    simp at this
+    simp [hr1, hr2, hr, hn]; omega
+  · have hn0 : n = 0 := by omega
+    subst hn0
+    rw [plainSpec_none (fun m hm hP => by have := hmax m hP; omega)]
+    simp [hr1, hr2, hr, hb]
+
+/-- the shape `(pos + n, ⟨if n > 0 then ty else unknown, pos, n⟩, n)` shared by most recognisers -/
+theorem agrees_plain' {k : Kind} {re : Re} {ty : TokType} {buf : Bytes} {pos : Nat}
+    (hk : specToken k (buf.drop pos) = plainSpec re ty (buf.drop pos)) (hb : k ≠ .block)
+    (n : Nat) (hmax : ∀ m, PM re (buf.drop pos) m → m ≤ n) (hmem : 0 < n → PM re (buf.drop pos) n)
+    (r : Nat × Token × Int)
+    (hr : r = (pos + n, Token.mk (if n > 0 then ty else .unknown) pos n, (n : Int)))
+    (h : pos ≤ buf.length) :
+    Agrees k buf pos r := by
+  subst hr
+  exact agrees_plain hk hb n hmax hmem _ rfl rfl rfl rfl rfl h
+
+theorem plain_result_eq {pos p n : Nat} {ty : TokType} (hp : p = pos + n) :
+    (p, Token.mk (if ((p : Int) - pos) > 0 then ty else .unknown) pos ((p : Int) - pos), (p : Int) - pos) =
+      (pos + n, Token.mk (if n > 0 then ty else .unknown) pos n, (n : Int)) := by
+  subst hp
+  have e : ((pos + n : Nat) : Int) - pos = n := by omega
+  rw [e]; simp
+
+theorem whiteSpace_spec (buf : Bytes) (pos : Nat) (h : pos ≤ buf.length) :
+    Agrees .ws buf pos (lexWhiteSpace buf pos) := by
+  apply agrees_plain' (re := wsRe) (ty := .ws) rfl (by decide) (tw isWs (buf.drop pos)) _ _ _ _ h
+  · intro m hm; exact (PM_plus_chr.1 hm).2
+  · intro hn; exact PM_plus_chr.2 ⟨hn, Nat.le_refl _⟩
+  · unfold lexWhiteSpace
+    lex_rel
+    exact plain_result_eq rfl
+
+theorem PM_mnemonic {s : Bytes} {m : Nat} :
+    PM mnemonic s m ↔ hd s isAlpha = true ∧ 1 ≤ m ∧ m ≤ 1 + tw (fun b => isAlnum b || b == 95) (s.drop 1) := by
+  unfold mnemonic
+  rw [PM_seq]
+  constructor
+  · rintro ⟨i, j, rfl, h1, h2⟩
+    rw [PM_chr] at h1; rw [PM_star_chr] at h2
+    obtain ⟨rfl, h1⟩ := h1
+    exact ⟨h1, by omega, by omega⟩
+  · rintro ⟨h1, h2, h3⟩
+    exact ⟨1, m - 1, by omega, PM_chr.2 ⟨rfl, h1⟩, PM_star_chr.2 (by omega)⟩
+
+theorem characterData_spec (buf : Bytes) (pos : Nat) (h : pos ≤ buf.length) :
+    Agrees .chr buf pos (lexCharacterProgramData buf pos) := by
+  by_cases hh : hd (buf.drop pos) isAlpha = true
+  · apply agrees_plain' (re := mnemonic) (ty := .programMnemonic) rfl (by decide)
+      (1 + tw (fun b => isAlnum b || b == 95) ((buf.drop pos).drop 1)) _ _ _ _ h
+    · intro m hm; exact (PM_mnemonic.1 hm).2.2
+    · intro hn; exact PM_mnemonic.2 ⟨hh, by omega, Nat.le_refl _⟩
+    · unfold lexCharacterProgramData
+      lex_rel [hh, if_true]
+      exact plain_result_eq (by omega)
+  · apply agrees_plain' (re := mnemonic) (ty := .programMnemonic) rfl (by decide) 0 _ _ _ _ h
+    · intro m hm; exact absurd (PM_mnemonic.1 hm).1 hh
+    · intro hn; omega
+    · unfold lexCharacterProgramData
+      lex_rel [hh]
+      exact plain_result_eq rfl
+
 end ScpiVerif.Lemmas.Lexer
